@@ -424,4 +424,55 @@ theorem pinned_filter_counterexample :
   decide +kernel
 end pinned_filter
 
+/-! ### the self-intersection query keeps every crossing of non-neighbouring segments (F26) -/
+
+section selfpairs
+variable {K : Type} [Field K] [LinearOrder K]
+
+/-- **every intersection found for a pair of non-neighbouring segments is reported** -/
+theorem self_keeps_nonadjacent (closed : Bool) (n : Nat) (hits : List (Nat × Nat × List (K × K))) (i1 i2 : Nat) (l : List (K × K))
+    (hm : (i1, i2, l) ∈ hits) (hn : neighbours closed n i1 i2 = false) (p : K × K) (hp : p ∈ l) :
+    (i1, i2, p.1, p.2) ∈ selfPairs closed n hits := by
+  unfold selfPairs
+  rw [List.mem_flatMap]
+  refine ⟨(i1, i2, l), hm, ?_⟩
+  rw [List.mem_map]
+  refine ⟨p, ?_, rfl⟩
+  rw [List.mem_filter]
+  exact ⟨hp, by simp [hn]⟩
+
+/-- for neighbouring segments exactly the intersections inside the window are reported; nothing is ever invented -/
+theorem self_mem_iff (closed : Bool) (n : Nat) (hits : List (Nat × Nat × List (K × K))) (q : Nat × Nat × K × K) :
+    q ∈ selfPairs closed n hits ↔
+      ∃ l, (q.1, q.2.1, l) ∈ hits ∧ (q.2.2.1, q.2.2.2) ∈ l ∧ (neighbours closed n q.1 q.2.1 = true → selfWindow q.2.2.1 = true) := by
+  unfold selfPairs
+  rw [List.mem_flatMap]
+  constructor
+  · rintro ⟨⟨i1, i2, l⟩, hm, hq⟩
+    rw [List.mem_map] at hq
+    obtain ⟨p, hp, rfl⟩ := hq
+    rw [List.mem_filter] at hp
+    refine ⟨l, hm, hp.1, ?_⟩
+    intro hnb
+    have := hp.2
+    simp only [hnb, Bool.not_true, Bool.false_or] at this
+    exact this
+  · rintro ⟨l, hm, hp, hw⟩
+    refine ⟨(q.1, q.2.1, l), hm, ?_⟩
+    rw [List.mem_map]
+    refine ⟨(q.2.2.1, q.2.2.2), ?_, rfl⟩
+    rw [List.mem_filter]
+    refine ⟨hp, ?_⟩
+    cases hnb : neighbours closed n q.1 q.2.1 with
+    | false => simp
+    | true => simp [hw hnb]
+
+/-- **F26**: segments 1 and 3 of a six-segment closed path crossing at parameters (0.0034, 0.973): the pinned loop drops the crossing
+    (its first parameter is within 1 % of an end), the repaired loop reports it -/
+theorem pinned_self_window_counterexample :
+    selfPairsPinned [(1, 3, [((34 : ℚ) / 10000, 973 / 1000)])] = []
+    ∧ selfPairs true 6 [(1, 3, [((34 : ℚ) / 10000, 973 / 1000)])] = [(1, 3, 34 / 10000, 973 / 1000)] := by
+  decide +kernel
+end selfpairs
+
 end C06
